@@ -16,7 +16,7 @@
 import AgeModel.GoSem
 import AgeModel.Stream
 import AgeModel.Extracted.Funcs
-import Proofs.GoTieMisc
+import Proofs.GoTieNonce
 namespace AgeModel
 namespace GoTie
 open Extracted Stream
